@@ -1125,7 +1125,13 @@ func expandTemplates(lines []string) []string {
 				block = append(block, lines[j])
 			}
 			for _, v := range vals {
+				// a value may be a tuple a:b:c -> {T} = a, {T.1} = b, {T.2} = c ...
+				parts := strings.Split(v, ":")
+				v = parts[0]
 				for _, b := range block {
+					for pi := len(parts) - 1; pi >= 1; pi-- {
+						b = strings.ReplaceAll(b, fmt.Sprintf("{%s.%d}", name, pi), parts[pi])
+					}
 					b = strings.ReplaceAll(b, "{"+name+"}", v)
 					b = strings.ReplaceAll(b, "{"+strings.ToLower(name)+"}", strings.ToLower(v))
 					b = strings.ReplaceAll(b, "{"+name+":elem}", templElem[v])
